@@ -99,6 +99,12 @@ func init() {
 			js = append(js, sites(withSumHash(job(pkgCore, "HarnessC06Warm", 0, 3, 1, 0)), ms...), sites(withSumHash(job(pkgCore, "HarnessC06Warm", 1, 3, 1, 0)), ms...), sites(withSumHash(job(pkgCore, "HarnessC06Warm", 2, 2, 1, 1)), ms...), sites(withSumHash(job(pkgCore, "HarnessC06", 0, 5, 1, 0)), ms...))
 			// the request object comes recycled from a multi-key request that was refused for its size
 			js = append(js, sites(withSumHash(job(pkgCore, "HarnessC06Refused", 0, 3, 1, 0)), ms...), sites(withSumHash(job(pkgCore, "HarnessC06Refused", 1, 2, 1, 0)), ms...), sites(withSumHash(job(pkgCore, "HarnessC06Refused", 2, 2, 1, 1)), ms...))
+			// splitting has no memory: a long history of other splits first (thorough: long enough to wrap 16-bit counters)
+			if tier == "thorough" {
+				js = append(js, noMapOrder(job(pkgCore, "HarnessC06History", 70000)))
+			} else {
+				js = append(js, noMapOrder(job(pkgCore, "HarnessC06History", 3000)))
+			}
 			// the real CRC/hash-tag code instead of its specification
 			js = append(js, sites(job(pkgCore, "HarnessC06", 0, 2, 1, 0), ms...), sites(job(pkgCore, "HarnessC06", 0, 2, 3, 0), ms...), sites(job(pkgCore, "HarnessC06", 2, 2, 1, 1), ms...), sites(job(pkgCore, "HarnessC06", 1, 3, 1, 0), ms...))
 			if tier == "thorough" {
@@ -110,7 +116,7 @@ func init() {
 			if tier == "thorough" {
 				return "MGET/DEL/MSET with 1..5 keys, every key 0..3 arbitrary bytes (so duplicates, empty keys, {tags} and real slot collisions occur), values 0..2 bytes, any letter case of the command name; all iteration orders of the per-slot map (<=3 entries: all permutations, above: rotations) at the fragment builders"
 			}
-			return "MGET/DEL/MSET with 1..3 keys, every key 0, 1 or 3 arbitrary bytes (duplicates, empty keys, {tags}, slot collisions), values 0..2 bytes, any letter case; all iteration orders of the per-slot map at the fragment builders"
+			return "MGET/DEL/MSET with 1..3 keys, every key 0, 1 or 3 arbitrary bytes (duplicates, empty keys, {tags}, slot collisions), values 0..2 bytes, any letter case; all iteration orders of the per-slot map at the fragment builders; request objects recycled after a wider or a refused multi-key request; a three-slot request after 3000 (thorough 70000) other splits"
 		},
 		Assumptions: []string{"in the jobs marked H=spec hashkit.Hash is replaced by the key-slot specification (justified by C05); the other jobs run the real CRC code", "map iteration order is explored only inside CRespCodec.MGet/Del/MSet (insertion order elsewhere)"},
 		Stubs:       []string{stubWorld},
